@@ -203,6 +203,7 @@ var boundaryFiles = map[string][]string{
 	"root":                 {"seccomp_linux.go"},
 	"cmd/sandbox":          {"main.go"},
 	"cmd/seccomp-profiler": {"main.go"},
+	"cmd/seccomp-profiler/disasm": {"disasm.go"},
 }
 
 var boundaryRewrites = [][2]string{
@@ -224,6 +225,15 @@ var boundaryRewrites = [][2]string{
 	{"exec.Command(", "vstubCommand("},
 	{"cmd.Run()", "vstubCmdRun(cmd)"},
 	{"os.Exit(", "vstubExit("},
+	// disasm
+	{"os.Open(", "vstubOpen("},
+	{"f.Close()", "vstubFileClose(f)"},
+	{"bufio.NewScanner(", "vstubNewScanner("},
+	{"bufio.NewReader(", "vstubNewReader("},
+	{"s.Scan()", "vstubScan(s)"},
+	{"s.Text()", "vstubText(s)"},
+	{"s.Err()", "vstubScanErr(s)"},
+	{"findSyscallNum(instructions, s", "vstubFindSyscallNum(instructions, s"},
 }
 
 // RewriteBoundary is the mechanical source rewrite used for native replays.
@@ -554,6 +564,8 @@ type SolverStats struct {
 	DecidedByOne int
 	Inconclusive int
 	Fallbacks    int
+	StringQueries int
+	StringS       float64
 }
 
 func (st *SolverStats) add(pl *sym.Pool) {
@@ -573,6 +585,8 @@ func (st *SolverStats) add(pl *sym.Pool) {
 			ps.LastErr = p.LastErr
 		}
 	}
+	st.StringQueries += pl.StringQueries
+	st.StringS += pl.StringWall.Seconds()
 	st.Decided += pl.Decided
 	st.CrossChecked += pl.CrossChecked
 	st.DecidedByOne += pl.DecidedByOne
